@@ -57,7 +57,7 @@ Print Assumptions c02_readable_partial.
    durably written" (and the rest of the invariant) ... *)
 Theorem c02_only_permitted_losses_partial : forall d o,
   dinv d -> step_ok d o -> dinv (fst (dstep d o)).
-Proof. exact dinv_step. Qed.
+Proof. exact (dinv_step (fun _ => False)). Qed.
 Print Assumptions c02_only_permitted_losses_partial.
 
 (* ... and those two raise lostSectors by exactly the number of occupied slots they destroy,
@@ -125,6 +125,93 @@ Theorem c02_crash_readable_refuted : exists size l r,
 Proof. exact readable_refuted_crash. Qed.
 Print Assumptions c02_crash_readable_refuted.
 
+(* ---- Maintenance cut at its internal steps (DataModel.v, "Finer steps") --------------------
+   VolumeManager.RemoveSector is four steps — XRsLocate (vm.mu.Lock, SectorLocation), XRsCommit
+   (Store.RemoveSector), XRsZero (the zero write), XRsEnd (fsync, cache drop, unlock) — and
+   every other step of the model may run in between, except the ones that need vm.mu while it
+   is held ([takes_mu]: a writer's data write, Sync and its pieces, a cache-miss read,
+   migrateSector, another RemoveSector, Close).  Sync was already cut (DSyncBegin / DFsync /
+   DClear / DSyncEnd), a writer is DReserve / DWrite; migrateSector runs inside one store
+   transaction (one connection: nothing interleaves with it, so a migrated sector stays one step)
+   and takes vm.mu only for map lookups; shrink = Store.ShrinkVolume then truncate and
+   remove = Store.RemoveVolume then file removal touch only slots the store has just made
+   unreachable (ShrinkVolume / non-forced RemoveVolume refuse occupied slots, held writers'
+   included), so cutting them changes no read.
+   [xstep_ok] = [step_ok] with the explicit deletion ALLOWED (as one step or cut), under two
+   provisos: content number 0 (zeroes) is nobody's root, and no upload of the very sector that
+   is being deleted is in flight when its metadata is removed (refuted otherwise, see below).
+   [xlost] is the list of sectors an operator deleted explicitly. *)
+
+(* every step of the finer model keeps the invariant "every referenced sector that was not
+   deleted explicitly is durably written" (+ cache coherence, writers' slots, the window
+   condition of a RemoveSector in progress): the finer version of c02_only_permitted_losses *)
+Theorem c02_only_permitted_losses_fine_partial : forall x o,
+  xinv x -> xstep_ok x o -> xinv (fst (xstep x o)).
+Proof. exact xinv_step. Qed.
+Print Assumptions c02_only_permitted_losses_fine_partial.
+
+(* the finer version of c02_readable: every interleaving of the internal steps of RemoveSector
+   with writers, Syncs, prune, migration, crashes ... *)
+Theorem c02_readable_fine_partial : forall (size : N) (l : list xop) (r : N),
+  xsteps_ok (xinit size) l ->
+  let x := xruns (xinit size) l in
+  refd (md (xd x)) r = true -> ~ In r (xlost x) ->
+  read_result (xd x) r = Some r /\ read_result (dcrash (xd x)) r = Some r.
+Proof. exact readable_xruns. Qed.
+Print Assumptions c02_readable_fine_partial.
+
+(* An explicit deletion of r — as one step or at any of its internal steps, after any run and
+   with anything in between — never changes what any other referenced sector reads back. *)
+Theorem c02_remove_sector_loses_only_its_target : forall (size : N) (l : list xop) (o : xop) (r q : N),
+  xsteps_ok (xinit size) (l ++ [o]) ->
+  rs_target (xruns (xinit size) l) o = Some r -> q <> r ->
+  let x := xruns (xinit size) l in
+  let x' := fst (xstep x o) in
+  refd (md (xd x')) q = true -> ~ In q (xlost x) ->
+  read_result (xd x') q = Some q /\ read_result (dcrash (xd x')) q = Some q.
+Proof. exact remove_sector_only_target. Qed.
+Print Assumptions c02_remove_sector_loses_only_its_target.
+
+(* uninterrupted, the four steps are the RemoveSector step of the coarser model *)
+Theorem c02_remove_sector_is_its_steps : forall x r,
+  xmu x = None ->
+  (locate r (md (xd x)) = None \/ exists m, remove_sector r (md (xd x)) = Ok m) ->
+  exists lost, xruns x [XRsLocate r; XRsCommit; XRsZero true; XRsEnd true] =
+               {| xd := fst (dstep (xd x) (DRemoveSector r)); xmu := None; xlost := lost |}.
+Proof. exact rs_steps_are_remove_sector. Qed.
+Print Assumptions c02_remove_sector_is_its_steps.
+
+(* Legacy variant, RemoveSector WITHOUT the critical section (vm.mu only around the map lookup;
+   [xstep_gen false]): a calm, disciplined run in which a referenced sector that nobody deleted
+   reads back as zeroes — the writer that was handed the released slot wrote before the zeroes. *)
+Theorem c02_remove_sector_without_lock_refuted : exists size l q,
+  forallb xcalm l = true /\ xguards false (xinit size) l = true /\
+  disciplined (xdtrace false (xinit size) l) = true /\
+  let x := xruns_gen false (xinit size) l in
+  refd (md (xd x)) q = true /\ ~ In q (xlost x) /\ read_result (xd x) q <> Some q.
+Proof. exact rs_without_lock_refuted. Qed.
+Print Assumptions c02_remove_sector_without_lock_refuted.
+
+(* ... with the critical section the same schedule is harmless: the data write is not enabled
+   inside the window and lands on top of the zeroes *)
+Theorem c02_remove_sector_lock_orders_writer :
+  let x := xruns (xinit 0) (firstn 10 witness_no_lock) in
+  snd (xstep x (XD (DWrite 2 true))) = ODBad /\
+  read_result (xd (xruns (xinit 0) (firstn 10 witness_no_lock ++ [XRsZero true; XRsEnd true; XD (DWrite 2 true)]))) 8 = Some 8%N.
+Proof. exact rs_with_lock_blocks_writer. Qed.
+Print Assumptions c02_remove_sector_lock_orders_writer.
+
+(* The second proviso of [xstep_ok] cannot be dropped, of the code as it is: RemoveSector of a
+   sector whose upload is in flight (slot reserved, data not written) releases that slot; another
+   sector gets it, is written, synced, referenced; the first writer then writes into it.
+   Reproduced on the real VolumeManager (harness sig remove-sector-of-in-flight-upload-overwrites-new-tenant). *)
+Theorem c02_remove_sector_of_in_flight_upload_refuted : exists size l q,
+  forallb xcalm l = true /\ disciplined (xdtrace true (xinit size) l) = true /\
+  let x := xruns (xinit size) l in
+  refd (md (xd x)) q = true /\ ~ In q (xlost x) /\ read_result (xd x) q <> Some q.
+Proof. exact rs_in_flight_refuted. Qed.
+Print Assumptions c02_remove_sector_of_in_flight_upload_refuted.
+
 (* non-vacuity: a run that meets the hypotheses, commits a reference, migrates the sector during
    a shrink, crashes, and reads it back *)
 Example c02_nonvacuous :
@@ -132,3 +219,12 @@ Example c02_nonvacuous :
   slot_at (md (druns (dinit 1) demo)) 2 0 = Some (Some 7%N) /\
   read_result (druns (dinit 1) demo) 7 = Some 7%N.
 Proof. exact demo_nonvacuous. Qed.
+
+(* ... and one at the finer granularity: a RemoveSector parked after its metadata commit while a
+   writer of another sector is handed the released slot; a crash at the end *)
+Example c02_fine_nonvacuous :
+  xsteps_ok (xinit 0) xdemo /\
+  let x := xruns (xinit 0) xdemo in
+  xlost x = [7%N] /\ refd (md (xd x)) 8 = true /\ refd (md (xd x)) 9 = true /\
+  read_result (xd x) 8 = Some 8%N /\ read_result (xd x) 9 = Some 9%N /\ read_result (xd x) 7 = None.
+Proof. exact xdemo_nonvacuous. Qed.
